@@ -199,7 +199,7 @@ ADDENDA = {
  "C14": "Programs also return an opaque `impl Fn() -> u64` and enable the (test-gated) `mockall` derivation; thorough walks call chains up to depth 6.",
  "C20": "The corpus contains invocations that name each other's generated traits (`deps: &impl Ui`), the same invocation before and after the one it names, with different options on the named one.",
  "C08": "Bodies of <= 2 plain items are also replayed as macro-assembled twins: the same module built by a macro_rules! macro, every item an `$i:item` fragment (invisible groups), against the same ground truth.",
- "C11": "The model carries the cargo-feature dimension: with entrait's `unimock` feature off, unimock support comes from the `unimock` option alone (the client crate depends on unimock itself); Level 2 predicts that such programs cannot be compiled (`::entrait::__unimock` is missing) - the named deviation `unimock-option-without-feature`, a known finding.",
+ "C11": "The model carries the cargo-feature dimension: with entrait's `unimock` feature off, unimock support comes from the `unimock` option alone (the client crate depends on unimock itself); Level 2 predicts that such programs cannot be compiled (`::entrait::__unimock` is missing) - the named deviation `unimock-option-without-feature`, a known finding. Parameter kinds include `&'l str` with an explicit lifetime parameter of the function (the parameter stays on the generated method; the unmock_with entry is still the function).",
  "C12": "Thorough adds return shapes (tuple, `Result<u8, String>`, `&'static str`). Modes also include an async_trait attribute below entrait on a function and on a module (it must move to the generated items and leave the annotated item), and by-value receivers of async trait methods (the Impl<T> moves into a future that must still be Send).",
  "C13": "Trait inputs are also rendered with an inner doc comment (the item is re-assembled by the macro); thorough adds `pub(self)` / `pub(in path)` on modules, `pub(super)` / `pub(in path)` on traits and exporting invocations with every visibility. For `delegate_by = DelegateTr` the generated delegation trait is probed as a third name (it must follow the entraited trait's visibility).",
  "C15": "Case kinds also include the trait path of an entraited impl block (plain, with a module prefix, with generic arguments - rejected with a diagnostic); the pipeline model (Expand.tla) has the corresponding ParseItem step.",
